@@ -37,10 +37,10 @@ MANIFEST = dict(
           "every target string: the lunation count k is monotone in the query and skips no integer, |periodic "
           "correction| <= the sum of the generated amplitudes, consecutive results are one mean period apart within "
           "twice that sum and strictly increasing, the result is within half a period plus that sum of the mean "
-          "instant selected by the fractional year; any other target string raises ValueError. NOT proved (no "
+          "instant selected by the fractional year; any other target string raises ValueError; the mean node / perigee polynomials advance at -1934.136 / +4069.014 deg per century within 0.29 / 1.42 deg per century. NOT proved (no "
           "certified interval arithmetic for long trigonometric sums; triangle-inequality bounds are 355 000-415 000 "
           "km and 6.2 deg): distance 356 000-407 000 km, |latitude| <= 5.35 deg, longitude rate, fraction vs "
-          "geometry, secular rates, agreement of the finders with the position theory, the 1.6-month clause in "
+          "geometry, the secular rates after the Angle reduction and of the true node, agreement of the finders with the position theory, the 1.6-month clause in "
           "calendar terms. These clauses are evaluated on the implementation only (predicates (I)), sweeping every "
           "calendar day of sample years of both calendars incl. 29 February of Julian century years. The model is "
           "tied to /repo by the bit-exact binary64 run."),
@@ -472,7 +472,8 @@ def generate(ctx, shard=0, nshards=1):
             a._deg = v
             ctx.case('moon_to_positive', [v], run_impl(lambda: a.to_positive()._deg), q=None)
         for v in [0.0, 59.999999999, 60.0, 3599.99, 3600.0, 3245.251, 3629.215, 3700.123, -3400.5, 1e-9, 216000.0,
-                  1296000.0, 1296000.5, 86399.99999] + [rng.uniform(3000, 4000) for _ in range(100)]:
+                  1296000.0, 1296000.5, 86399.99999, 1295999.9999999998, 1295999.99999999, -1295999.9999999998,
+                  2591999.9999999995] + [rng.uniform(3000, 4000) for _ in range(100)]:
             ctx.case('moon_angle_dms00', [v], run_impl(lambda: Angle(0, 0, v)._deg), q=None)
         for _ in range(ctx.n(300, 1500)):
             j = rng.uniform(J_MIN, J_MAX)
@@ -481,7 +482,7 @@ def generate(ctx, shard=0, nshards=1):
             check_bad_targets(ctx, q)
 
     # ---- position clauses on random + boundary epochs
-    n_pos = ctx.n(6000, 120000) // nw
+    n_pos = ctx.n(8000, 100000) // nw
     for i in range(n_pos):
         r = rng.random()
         if hot_jdes and r < 0.1:
@@ -505,7 +506,7 @@ def generate(ctx, shard=0, nshards=1):
         # quick: the range ends and the reform year always, a third of the other special years in rotation
         fixed += [yk for i, yk in enumerate(SPECIAL_YEARS)
                   if (i + base_seed) % 3 == 0 or yk[1] in ('range_end', 'reform_year')]
-    mine = fixed[shard::nw] + [(rng.randint(-2000, 4000), 'random_year') for _ in range(max(1, ctx.n(24, 1500) // nw))]
+    mine = fixed[shard::nw] + [(rng.randint(-2000, 4000), 'random_year') for _ in range(max(1, ctx.n(24, 1000) // nw))]
     for (y, klass) in mine:
         sweep_year(ctx, y, klass, pending, frac=rng.choice([0.0, 0.0, 0.5, rng.random()]),
                    tie_every=1 if klass != 'random_year' else 3)
